@@ -59,11 +59,11 @@ package ipv4
 //@   ensures ghost(icmpSent) == old(ghost(icmpSent)) + 1 && ghost(lastICMPType) == int(header.ICMPv4EchoReply) && ghost(lastICMPCode) == int(code)
 //@   ensures ghost(lastICMPHdrLen) == header.ICMPv4EchoMinimumSize
 //@   ensures ghost(lastICMPPayloadArr) == int(arr(data)) && ghost(lastICMPPayloadOff) == off(data) + 2 && ghost(lastICMPPayloadLen) == len(data) - 2
-//@   modifies everything(), ghost(tcpSegs), ghost(lastTCPFlags), ghost(lastTCPSeq), ghost(lastTCPAck), ghost(sentNonFin), ghost(sentFin), ghost(icmpSent), ghost(lastICMPType), ghost(lastICMPCode), ghost(lastICMPHdrLen), ghost(lastICMPPayloadArr), ghost(lastICMPPayloadOff), ghost(lastICMPPayloadLen)
+//@   modifies everything(), modset(NETGHOSTS)
 
 // The replier answers every request it receives with exactly that reply; it never sends
 // anything else.
 //@ func (*endpoint).echoReplier props C13
 //@   requires e != nil
 //@   loop 1 invariant true
-//@   modifies everything(), ghost(tcpSegs), ghost(lastTCPFlags), ghost(lastTCPSeq), ghost(lastTCPAck), ghost(sentNonFin), ghost(sentFin), ghost(icmpSent), ghost(lastICMPType), ghost(lastICMPCode), ghost(lastICMPHdrLen), ghost(lastICMPPayloadArr), ghost(lastICMPPayloadOff), ghost(lastICMPPayloadLen)
+//@   modifies everything(), modset(NETGHOSTS)
